@@ -32,7 +32,10 @@ Record hook_site := mk_hs { hs_fn : string; hs_field : string; hs_rhs : string; 
 Inductive sorigin := SLocal | SField.
 Record broker_fact := mk_bf { bf_fn : string; bf_callee : string; bf_origin : sorigin; bf_held : heldset }.
 
-Inductive srw := SR | SW | SWOnce | SPreR | SPreW.
+Inductive srw := SR | SW | SWOnce | SPreR | SPreW | SModeR | SModeW.
+(* SMode*: only executed when a key exists and encryption is off, where the crypto-for-secret
+   toggle really flips the stream's single encryption flag (a per-stream mode switch that is
+   not safe under full-duplex use, as in C++); a no-op toggle touches nothing *)
 Record stream_acc := mk_sa { sa_method : string; sa_field : string; sa_rw : srw }.
 
 (* ---- the guard map: which lock protects which field ---------------------- *)
